@@ -49,7 +49,11 @@ RT = "http://schemas.openxmlformats.org/officeDocument/2006/relationships/"
 FIELDS = ("left", "top", "width", "height")
 LATENT = ("dt", "ftr", "sldNum")
 NOTES_CLONED = ("sldImg", "body", "sldNum")
-LAYOUT_TYPES = ["title", "ctrTitle", "subTitle", "body", None, "chart", "tbl", "clipArt", "dgm", "media", "pic", "dt", "ftr", "sldNum"]
+LAYOUT_TYPES = ["title", "ctrTitle", "subTitle", "body", None, "obj", "chart", "tbl", "clipArt", "dgm", "media", "pic", "dt", "ftr", "sldNum", "hdr"]
+# (sldImg is not generated on slide layouts: it exists on notes pages only, python-pptx has no base name for it on a slide -
+# add_slide raises KeyError - and no authoring application puts one there; hdr is, with its own full a:xfrm, because
+# python-pptx has no master type for it to inherit from)
+NO_MASTER_COUNTERPART = ("hdr",)
 MASTER_OF = dict({t: "body" for t in ("body", "subTitle", "obj", "chart", "tbl", "clipArt", "dgm", "media", "pic")}, title="title", ctrTitle="title", dt="dt", ftr="ftr", sldNum="sldNum")
 BASENAME = {  # documented in _BaseShapes.ph_basename; only used to provoke name collisions
     "clipArt": "ClipArt Placeholder", "body": "Text Placeholder", "ctrTitle": "Title", "chart": "Chart Placeholder", "media": "Media Placeholder",
@@ -145,7 +149,7 @@ def gen_population(rnd):
         pop.append(
             {
                 "el": el, "type": t, "idx": idx, "orient": rnd.choice([None, None, None, "vert", "horz"]), "sz": rnd.choice([None, None, "full", "half", "quarter"]),
-                "xfrm": "full" if el != "sp" else rnd.choice(["full", "full", "full", "none", "none", "off", "ext"]),
+                "xfrm": "full" if (el != "sp" or t in NO_MASTER_COUNTERPART) else rnd.choice(["full", "full", "full", "none", "none", "off", "ext"]),
                 "geom": [rnd.randrange(0, 9000000), rnd.randrange(0, 6000000), rnd.randrange(0, 9000000), rnd.randrange(0, 6000000)],
                 "name": rnd.choice(["Title 1", "Content Placeholder 2", "%s %d" % (base, k + 1), "%s %d" % (base, k + 2), "Shape %d" % k, ""]),
             }
@@ -175,6 +179,7 @@ def gen_case(rnd, decks):
     return {
         "deck": "default" if rnd.random() < 0.6 else rnd.choice(decks), "master": rnd.randrange(4), "layout": rnd.randrange(32), "population": gen_population(rnd),
         "master_edit": rnd.choice([None] * 6 + ["drop:body", "drop:title", "noxfrm:body", "noxfrm:title", "drop:sldNum"]), "steps": gen_steps(rnd),
+        "notes_master_edit": rnd.random() < 0.3,
     }
 
 
@@ -574,6 +579,26 @@ def run_case(case, acc, cls):
     if case.get("population") is not None and not rewrite(ctx.layout, ctx.master, case):
         acc.count("generated_populations_rejected_by_libxml2")
         return
+    if case.get("notes_master_edit"):
+        # the notes master as another template has it: its slide-number placeholder in front, a second body placeholder
+        import copy
+
+        nm = prs.notes_master._element
+        sps = xp(nm, "./p:cSld/p:spTree/p:sp[p:nvSpPr/p:nvPr/p:ph]")
+        num = [sp for sp in sps if xp(sp, "./p:nvSpPr/p:nvPr/p:ph/@type") == ["sldNum"]]
+        body = [sp for sp in sps if xp(sp, "./p:nvSpPr/p:nvPr/p:ph/@type") == ["body"]]
+        if num and sps[0] is not num[0]:
+            sps[0].addprevious(num[0])
+        if body:
+            extra = copy.deepcopy(body[0])
+            ids = [int(i) for i in xp(nm, "//p:cNvPr/@id") if i.isdigit()]
+            idxs = [int(i) for i in xp(nm, "//p:ph/@idx") if i.isdigit()]
+            c = xp(extra, "./p:nvSpPr/p:cNvPr")[0]
+            c.set("id", str(max(ids) + 1))
+            c.set("name", "Notes Placeholder %d" % (max(ids) + 1))
+            xp(extra, "./p:nvSpPr/p:nvPr/p:ph")[0].set("idx", str(max(idxs + [9]) + 1))
+            body[0].addnext(extra)
+        acc.count("notes_masters_edited_before_the_first_notes_slide")
     recs = ph_records(ctx.layout._element)
     where = "layout with %d placeholder(s)" % len(recs)
     add_slide(ctx, ctx.master, ctx.layout, where)
@@ -613,7 +638,7 @@ def run_unit(unit, tier, seed, acc):
         prs = open_deck(deck)
         for mi, m in enumerate(prs.slide_masters):
             for li in range(len(m.slide_layouts)):
-                run_case({"deck": deck, "master": mi, "layout": li, "population": None, "master_edit": None, "steps": [{"op": "notes", "slide": 0}]}, acc, "corpus")
+                run_case({"deck": deck, "master": mi, "layout": li, "population": None, "master_edit": None, "steps": [{"op": "notes", "slide": 0}], "notes_master_edit": li == 1}, acc, "corpus")
                 for h in range(6 if tier == "thorough" else 0):
                     steps = gen_steps(env.rng("C13", "hist", deck, mi, li, h)) + [{"op": "add-same", "slide": 0}]
                     run_case({"deck": deck, "master": mi, "layout": li, "population": None, "master_edit": None, "steps": steps}, acc, "corpus-history")
